@@ -11,7 +11,7 @@ SPEC = {
     "assumptions": ["only store nodes fail (meta and sql nodes stay up); a minority = one of three stores",
                     "bounded liveness: writes accepted again within 60 s, reads admissible within 90 s; timing-dependent, failing schedules replay only approximately"],
     "campaigns": [
-        {"name": "fault_sequences", "run": "^TestFaultSequences$", "quick": B(1, 4, 900, shrinktime="1s"), "thorough": B(10, 4, 3400, shrinktime="1s")},
+        {"name": "fault_sequences", "run": "^TestFaultSequences$", "quick": B(1, 4, 900, shrinktime="1s"), "thorough": B(5, 4, 3400, shrinktime="1s")},
     ],
     "max_parallel": 3,
 }
